@@ -63,6 +63,11 @@ def replay(case):
     return None
 
 
+def covfuzz_target():
+    """strategy and oracle for the coverage-guided stage (vlib/covfuzz.py)"""
+    return pvcase.cases(), lambda c: run_case(c)
+
+
 def plan(tier):
     return {"shards": 16, "budget_s": 240 if tier == "quick" else 3000,
             "hashseeds": [0, 1, 2, 3],
@@ -90,3 +95,10 @@ def run_shard(ctx):
     n = 150 if ctx.tier == "quick" else 4000
     ctx.run_given(pvcase.cases(), lambda c: run_case(c, ctx), n,
                   shrinker=pvcase.shrinker)
+    if ctx.violations:
+        return
+    from vlib import covfuzz
+    if ctx.tier == "thorough":
+        covfuzz.run_stage(ctx, ID, runs=6000)
+    elif ctx.shard < 4:
+        covfuzz.run_stage(ctx, ID, runs=120, timeout=120)
